@@ -277,7 +277,8 @@ func (symbol *entitySetSymbolRuntime) Next() {
 
 func (symbol *entitySetSymbolRuntime) Seek(val []byte) {
 	if symbol.cursor != nil {
-		symbol.value, _ = symbol.cursor.Seek(val)
+		seekVal := PrependFieldType(TypeString, val)
+		symbol.value, _ = symbol.cursor.Seek(seekVal)
 	}
 }
 
